@@ -14,6 +14,8 @@ pub enum Mode {
     Never(i8),
     /// one publish request every n-th elapsed interval
     Every(u8),
+    /// a publish request is queued before every tick for n elapsed intervals, then the client goes silent
+    ActiveThenSilent(u8),
 }
 
 #[derive(Clone, Debug, Serialize, Deserialize, PartialEq)]
@@ -34,7 +36,7 @@ fn case() -> impl Strategy<Value = Case> {
         1u32..13,
         prop_oneof![3 => Just(0u32), 2 => 1u32..5],
         proptest::bool::weighted(0.8),
-        prop_oneof![4 => Just(Mode::Always), 3 => prop_oneof![-4i8..-1, 1i8..4].prop_map(Mode::Never), 2 => (2u8..7).prop_map(Mode::Every)],
+        prop_oneof![4 => Just(Mode::Always), 3 => prop_oneof![-4i8..-1, 1i8..4].prop_map(Mode::Never), 2 => (2u8..7).prop_map(Mode::Every), 3 => (1u8..30).prop_map(Mode::ActiveThenSilent)],
         prop_oneof![3 => Just(0u8), 1 => Just(1u8), 1 => Just(2u8)],
         1u16..400,
     )
@@ -177,6 +179,62 @@ fn run(ctx: &Ctx, c: &Case) -> PResult {
                 }
             }
         }
+        Mode::ActiveThenSilent(active) => {
+            // phase 1: requests always available
+            while clock.elapsed_count < *active as u32 {
+                if fx.queue_lens().0 == 0 {
+                    let (_, r, out) = fx.publish(ctx, &[], None, 0)?;
+                    if let Err(e) = r {
+                        return ctx.fail("publish-refused", format!("{}: {}", desc, e));
+                    }
+                    for (_, m) in &out {
+                        if let Delivered::StatusChange { status, .. } = classify(m) {
+                            if c.enabled {
+                                return ctx.fail("expired-although-requests-always-available", format!("{}: status change {} in the active phase", desc, status));
+                            }
+                            return Ok(());
+                        }
+                    }
+                }
+                let now = fx.now + chrono::Duration::milliseconds(delta);
+                clock.step(now);
+                let out = fx.tick(ctx, delta)?;
+                for (_, m) in &out {
+                    if let Delivered::StatusChange { status, .. } = classify(m) {
+                        if c.enabled {
+                            return ctx.fail("expired-although-requests-always-available", format!("{}: status change {} in the active phase", desc, status));
+                        }
+                        return Ok(());
+                    }
+                }
+            }
+            // phase 2: silence. A request left in the queue counts as available until a keep-alive consumes it
+            // (at most keep-alive count + 1 intervals), after that the lifetime runs: lifetime + 1 intervals.
+            let silent_from = clock.elapsed_count;
+            let budget = ka + 1 + lt + 2;
+            let mut expired = false;
+            while clock.elapsed_count < silent_from + budget && !expired {
+                let now = fx.now + chrono::Duration::milliseconds(delta);
+                clock.step(now);
+                let out = fx.tick(ctx, delta)?;
+                expired |= out.iter().any(|(_, m)| matches!(classify(m), Delivered::StatusChange { status, .. } if status == StatusCode::BadTimeout));
+            }
+            ctx.nontrivial();
+            ctx.class("active_then_silent");
+            if !expired {
+                let (_, r, mut out) = fx.publish(ctx, &[], None, 0)?;
+                if r.is_ok() && out.is_empty() {
+                    out = fx.tick(ctx, 1)?;
+                }
+                expired = out.iter().any(|(_, m)| matches!(classify(m), Delivered::StatusChange { status, .. } if status == StatusCode::BadTimeout)) || matches!(r, Err(StatusCode::BadNoSubscription));
+            }
+            if !expired {
+                return ctx.fail(
+                    "idle/not-expired-after-client-went-silent",
+                    format!("{}: the client had requests available for {} intervals and then sent nothing for {} intervals (keep-alive count + lifetime count + 3); the subscription has not reported BadTimeout", desc, active, budget),
+                );
+            }
+        }
         Mode::Never(off) => {
             let n = (lt as i64 + *off as i64).max(1) as u32;
             while clock.elapsed_count < n {
@@ -217,7 +275,7 @@ fn run(ctx: &Ctx, c: &Case) -> PResult {
 pub fn def() -> PropDef {
     PropDef {
         id: "C22",
-        rule: "timer-only histories of 1..400 ticks on one subscription without monitored items, keep-alive count 1..12, lifetime count 3k..3k+4, publishing enabled or disabled, tick spacing of one, half and two publishing intervals, with a publish request always queued / never (idle for lifetime-4..lifetime-2 or lifetime+1..lifetime+3 intervals, then one probe request) / every n-th interval; oracle from the property: always available and enabled => first keep-alive by the 2nd elapsed interval, at most keep-alive-count + 1 intervals between keep-alives, never a status change; never => BadTimeout status change for idle >= lifetime + 1 and none for idle <= lifetime - 2 (one interval of slack), and the subscription is gone afterwards; non-trivial = more than two keep-alive periods, or an idle run next to the lifetime; distinct = distinct case",
+        rule: "timer-only histories of 1..400 ticks on one subscription without monitored items, keep-alive count 1..12, lifetime count 3k..3k+4, publishing enabled or disabled, tick spacing of one, half and two publishing intervals, with a publish request always queued / never (idle for lifetime-4..lifetime-2 or lifetime+1..lifetime+3 intervals, then one probe request) / every n-th interval / always for 1..29 intervals and then never again; oracle from the property: always available and enabled => first keep-alive by the 2nd elapsed interval, at most keep-alive-count + 1 intervals between keep-alives, never a status change; never => BadTimeout status change for idle >= lifetime + 1 and none for idle <= lifetime - 2 (one interval of slack), and the subscription is gone afterwards; active then silent => BadTimeout within keep-alive count + lifetime count + 3 intervals of silence; non-trivial = more than two keep-alive periods, or an idle run next to the lifetime; distinct = distinct case",
         assumptions: &[
             "an interval counts as elapsed when the subscription's own test (now - last elapsed >= publishing interval) holds at a timer tick",
             "with publishing disabled and requests always available nothing is asserted (the property speaks of publishing enabled)",
